@@ -171,6 +171,57 @@ def nested_and_merge():
     return out
 
 
+def _wide(n):
+    seq = [{"common": "c0", "f000": "v0"}, {"common": "c1", "f001": "v1"}] + [{"f%03d" % i: "v%d" % i} for i in range(2, n)]
+    docs = [{"f%03d" % i: "v%d" % i} for i in (2, 5, n // 2, n - 2, n - 1) if 2 <= i < n]
+    docs += [{"common": "c0", "f000": "v0"}, {"common": "c1", "f001": "nope"}, {"common": "nope", "f005": "v5"}, {"common": "c0"},
+             {"f%03d" % (n - 1): "nope"}, {}]
+    return seq, docs
+
+
+def wide_matrix():
+    """or-groups over many distinct fields: matrices with up to 300 columns (column keys beyond one
+    UTF-8 byte from index 128 on)"""
+    out = []
+    for n in (60, 127, 128, 129, 131, 200, 300):
+        seq, docs = _wide(n)
+        out.append(({"A": seq, "condition": "A"}, docs))
+        out.append(({"A": seq, "B": {"zz": "zz"}, "condition": "B or A"}, docs))
+    return out
+
+
+def wide_matrix_quant():
+    out = []
+    for n in (127, 129, 131, 200):
+        seq, docs = _wide(n)
+        for cond in ("of(A, 1)", "not all(A)", "not A", "of(A, 2)"):
+            out.append(({"A": seq, "condition": cond}, docs))
+    return out
+
+
+def matrix_duplicate_fields():
+    """a member of an or-group that addresses one field twice (plain and cast key, or two identifiers
+    on the same field joined by `and`), in first / middle / last position: such a group must not
+    become a matrix row that keeps only one of the two conditions"""
+    out = []
+    docs = [{"a": "xyzbar", "b": 1}, {"a": "foobar", "b": 1}, {"a": "fooxyz", "b": 1}, {"a": "foobar", "b": 2}, {"a": "foobar"}, {"c": "x"},
+            {"a": "foobar", "b": 1, "c": "x"}, {"a": 5, "b": 1}, {"a": "5", "b": 1}, {"b": 1}, {}]
+    dup = [("a", "foo*"), ("str(a)", "*bar"), ("b", 1)]
+    import itertools
+    for perm in itertools.permutations(dup):
+        m = {k: v for k, v in perm}
+        out.append(({"S": [m, {"c": "x"}], "condition": "S"}, docs))
+        out.append(({"S": [{"c": "x"}, m, {"c": "y", "b": 2}], "condition": "S"}, docs))
+    for k2, v2 in (("int(a)", 5), ("flt(a)", ">=4.5"), ("not(a)", "zzz"), ("a.x", "q")):
+        for m in ({"a": "5*", k2: v2, "b": 1}, {"b": 1, "a": "5*", k2: v2}, {k2: v2, "b": 1, "a": "5*"}):
+            out.append(({"S": [m, {"c": "x"}], "condition": "S"}, docs + [{"a": 5.5, "b": 1}, {"a": "55", "b": 1}]))
+    ids = {"A": {"a": "foo*"}, "B": {"a": "*bar"}, "C": {"b": 1}, "D": {"c": "x"}, "E": {"c": "y"}}
+    for cond in ("(A and B and C) or D or E", "(A and C and B) or D or E", "(C and A and B) or D or E", "D or (A and B and C) or E",
+                 "(A and B) or D or E", "(A and B and C) or D"):
+        out.append((dict(ids, condition=cond), docs))
+    return out
+
+
 def sort_comparators():
     out = []
     kinds = {"starts": ["a*", "bb*", "ccc*"], "ends": ["*a", "*bb", "*ccc"], "contains": ["*a*", "*bb*", "*ccc*"], "exact": ["a", "bb", "ccc"],
@@ -219,7 +270,8 @@ def loader_errors():
 
 
 FAMILIES = [("scalar_casts", scalar_casts), ("list_casts", list_casts), ("cond_casts", cond_casts),
-            ("quantified_cast_bodies", quantified_cast_bodies), ("many_needles", many_needles), ("nested_matrix", nested_matrix), ("nested_and_merge", nested_and_merge),
+            ("quantified_cast_bodies", quantified_cast_bodies), ("many_needles", many_needles), ("nested_matrix", nested_matrix), ("nested_and_merge", nested_and_merge), ("wide_matrix", wide_matrix),
+            ("wide_matrix_quant", wide_matrix_quant), ("matrix_duplicate_fields", matrix_duplicate_fields),
             ("sort_comparators", sort_comparators), ("already_optimised", already_optimised), ("loader_errors", loader_errors)]
 
 
